@@ -144,6 +144,17 @@ def run_case(case, ctx, sdir):
             rec.outcome("build-refused:%s" % type(exc).__name__)
             rec.case(None, False)
             return
+        if case.get("resolve_link"):
+            # a link that is resolved when the document is saved: the second top level Section refers to the first one
+            # and holds copies of its children (what is saved is the document as it stands)
+            tops_ = list(doc.sections)
+            if len(tops_) > 1 and tops_[1].link is None and tops_[1].include is None and tops_[0].link is None \
+                    and tops_[0].include is None and not any(x_.link or x_.include for x_ in tops_[0].itersections()):
+                try:
+                    tops_[1].link = tops_[0].get_path()
+                    rec.count("kind", "with-a-resolved-link")
+                except Exception:
+                    rec.count("kind", "link-refused (document used as built)")
         before = model.model_of(doc)
         rec.case(core.h(enc(no_ids(spec))), nontrivial(spec))
         rec.count("kind", kind)
@@ -333,6 +344,8 @@ def run(ctx):
             rec.sample({"nodes": gen.count_nodes(spec), "first_section": enc(no_ids(spec["sections"][0]))
                         if gen.count_nodes(spec["sections"][0]) < 6 else "(large)"})
         run_case(case, ctx, sdir)
+        if i % 4 == 1 and len(spec["sections"]) > 1:
+            run_case(dict(case, resolve_link=True), ctx, sdir)
         if i % 3 == 0:
             run_reuse(case, ctx, ["JSON", "YAML"], (lambda m: m))
         if True:
